@@ -1,19 +1,30 @@
-// Package c02: STUB — property C02 is not built yet.
+// Package c02: property C02 over the shared exchange-machine harness (internal/pxy).
 package c02
 
-import "verif/harness/internal/core"
+import (
+	"verif/harness/internal/core"
+	"verif/harness/internal/pxy"
+)
 
 type P struct{}
 
 func init() { core.Register(P{}) }
 
-func (P) ID() string   { return "C02" }
-func (P) Rule() string { return "stub" }
-func (P) Gen(r *core.Rand, tier string, emit func([]string)) {}
-func (P) NewExec() core.Exec                                   { return ex{} }
-func (P) Nontrivial(ops []string, impl []string) bool         { return false }
+func (P) ID() string                                  { return "C02" }
+func (P) NewExec() core.Exec                          { return pxy.New() }
+func (P) Nontrivial(ops []string, impl []string) bool { return pxy.Nontrivial(ops, impl) }
 
-type ex struct{}
+func (P) Rule() string {
+	return "case = one client connection (plain, blind CONNECT, MITM with TLS or plain HTTP inside) with 1..7 requests whose request/response modifiers are scripted per exchange (pass, error, skip round trip, error+skip, hijack); recording modifiers, origin log, hook VerifLiveContexts at quiescence; distinct by op-list hash; non-trivial when >= 2 requests were served, a 502 or a hijack occurred, or later requests went unserved"
+}
 
-func (ex) Do(op string) core.Result { return core.Result{Impl: "bad-op"} }
-func (ex) Close()                   {}
+func (P) Gen(r *core.Rand, tier string, emit func([]string)) {
+	n := 150
+	if tier == "thorough" {
+		n = 3000
+	}
+	pr := pxy.Profile{Modifiers: true, Tunnels: true}
+	for i := 0; i < n; i++ {
+		emit(pxy.GenCase(r, pr))
+	}
+}
